@@ -473,3 +473,53 @@ package mobius
 //@   requires n != nil
 //@   before call (*hotline.NewsCategoryListData15).GetNewsArtListData assert locked(n, "mu")
 //@   guarded_by n.mu: ThreadedNews
+
+
+// ---------------------------------------------------------------------------------
+// C11: a move is refused only for a stated reason: the source cannot be found, or the requester
+// lacks the move privilege for that kind of item; otherwise the wrapper is moved to the resolved
+// destination and success is reported only if Move returned nil.
+
+//@ func HandleMoveFile(cc *hotline.ClientConn, t *hotline.Transaction) (res []hotline.Transaction)
+//@   property C11
+//@   before call (*hotline.ClientConn).NewErrReply assert callres("(*hotline.fileWrapper).DataFile", 1) != nil || !priv(cc, 8) || !priv(cc, 4)
+//@   before call (*hotline.fileWrapper).Move assert arg1 == callres("hotline.ReadPath#2", 0) && arg0 == callres("hotline.NewFileWrapper", 0)
+//@   before call hotline.NewFileWrapper assert arg1 == callres("hotline.ReadPath#1", 0)
+
+// C13: the user-joined notice (and the roster entry it creates on other clients) carries the values
+// the server stores for the new user -- the name and icon just assigned, its ID and flags -- not
+// values taken from the request.
+
+//@ func HandleTranAgreed(cc *hotline.ClientConn, t *hotline.Transaction) (res []hotline.Transaction)
+//@   property C13
+//@   before call hotline.NewField assert arg0[0] == 0 && arg0[1] == 102 ==> same(arg1, cc.UserName)
+//@   before call hotline.NewField assert arg0[0] == 0 && arg0[1] == 104 ==> same(arg1, cc.Icon)
+//@   before call hotline.NewField assert arg0[0] == 0 && arg0[1] == 103 ==> ptsto(arg1, cc.ID) && len(arg1) == 2
+//@   before call hotline.NewField assert arg0[0] == 0 && arg0[1] == 112 ==> ptsto(arg1, cc.Flags) && len(arg1) == 2
+
+//@ func HandleSetClientUserInfo(cc *hotline.ClientConn, t *hotline.Transaction) (res []hotline.Transaction)
+//@   property C13
+//@   before call hotline.NewField assert arg0[0] == 0 && arg0[1] == 102 ==> same(arg1, cc.UserName)
+//@   before call hotline.NewField assert arg0[0] == 0 && arg0[1] == 104 ==> same(arg1, cc.Icon)
+//@   before call hotline.NewField assert arg0[0] == 0 && arg0[1] == 103 ==> ptsto(arg1, cc.ID) && len(arg1) == 2
+//@   before call hotline.NewField assert arg0[0] == 0 && arg0[1] == 112 ==> ptsto(arg1, cc.Flags) && len(arg1) == 2
+
+// C18: a news path is walked to its end: every component is looked up in turn and nothing is
+// returned or acted upon before the last one (a path through a missing item yields the nil map of
+// that missing item, never the children of an ancestor).
+
+//@ func (n *ThreadedNewsYAML) getCatByPath(paths []string) (r map[string]hotline.NewsCategoryListData15)
+//@   property C18
+//@   requires n != nil
+//@   modifies nothing
+//@   loop 1 modifies nothing
+//@   loop 1 complete
+//@ func (n *ThreadedNewsYAML) GetArticle(newsPath []string, articleID uint32) (r *hotline.NewsArtData)
+//@   property C18
+//@   loop 1 complete
+//@ func (n *ThreadedNewsYAML) ListArticles(newsPath []string) (r hotline.NewsArtListData)
+//@   property C18
+//@   loop 1 complete
+//@ func (n *ThreadedNewsYAML) DeleteNewsItem(newsPath []string) (err error)
+//@   property C18
+//@   loop 1 complete
